@@ -34,6 +34,10 @@ structure DState where
   cur : Nat := 0
   /-- the process-wide steady clock in ms, moved by `sleep` lines only; every session call reads it (Ctx.clock) -/
   now : Nat := 0
+  /-- the wall clock in seconds (`time()`), moved by `advance` lines only -/
+  wall : Nat := 0
+  /-- `Session::last_active_time_` per live session index (`Session::Activate`: at creation and at every `GetSession`) -/
+  lastActive : List (Nat × Nat) := []
 
 def dedupByText : List Cand → List Bytes → List Cand
   | [], _ => []
@@ -431,11 +435,45 @@ def step (st : DState) (line : String) : DState × Option String :=
           | _ => 0
         (st, some (deadLine ret))
 
+/-- `Session::kLifeSpan` (service.h: 5 * 60 seconds) -/
+def kLifeSpan : Nat := 300
+
+def DState.touch (st : DState) (ks : List Nat) : DState :=
+  { st with lastActive := (st.lastActive.filter (fun p => !ks.contains p.1)) ++
+      ((ks.filter (fun k => st.svc.live.contains k)).map (fun k => (k, st.wall))) }
+
+/-- `step` plus the wall clock: `advance <s>` lets s seconds pass without a call; every other line marks the sessions the
+harness calls into as active (the current one: each observation reads it through the API; all live ones for `ids` and
+`cleanup_stale`, which look every id up); `cleanup_stale` = `Service::CleanupStaleSessions`: a live session goes when
+`last_active_time < now - kLifeSpan` -/
+def stepT (st : DState) (line : String) : DState × Option String :=
+  let ws := (line.trimAscii.toString.splitOn " ").filter (· ≠ "")
+  match ws with
+  | ["advance", s] =>
+    match s.toNat? with
+    | some s => ({ st with wall := st.wall + s }, none)
+    | none => (st, some "bad-op")
+  | ["cleanup_stale"] =>
+    let stale := st.svc.live.filter (fun k =>
+      match st.lastActive.find? (·.1 == k) with
+      | some p => decide ((p.2 : Int) < (st.wall : Int) - (kLifeSpan : Int))
+      | none => false)
+    let dummy : Ctx × String := ({}, "")
+    let svc := stale.foldl (fun s k => (RimeModel.C16.Svc.step dummy (sessStep st) s (.destroy k)).1) st.svc
+    let st := { st with svc := svc }
+    let st := st.touch st.svc.live
+    (st, some (showCur st true))
+  | _ =>
+    let r := step st line
+    match r.2 with
+    | none => r
+    | some _ => ((if ws == ["ids"] then r.1.touch r.1.svc.live else r.1.touch [r.1.cur]), r.2)
+
 partial def loop (h : IO.FS.Stream) (out : IO.FS.Stream) (st : DState) : IO Unit := do
   let line ← h.getLine
   if line.isEmpty then return ()
   if line.startsWith "#" then loop h out st else
-  let (st', o) := step st line
+  let (st', o) := stepT st line
   match o with
   | some s => out.putStrLn s
   | none => pure ()
